@@ -211,14 +211,17 @@ func baseMult(k *[32]byte) *ed.Point {
 	return new(ed.Point).ScalarBaseMult(scReduce32(k))
 }
 
-// hMult returns (k mod l)*H (H has prime order).
-func hMult(k *[32]byte) *ed.Point {
-	return new(ed.Point).VarTimeScalarMult(scReduce32(k), pointH)
+// geScalarmult is Monero's ge_scalarmult(k, P): for k[31] <= 127 (every
+// well-formed scalar) the integer product k*P where k is NOT reduced mod l,
+// which differs from reduction when P has a torsion component; for larger k the
+// out-of-specification behaviour of the C code is reproduced (see
+// ed25519x.VarTimeScalarMultMonero).
+func geScalarmult(k *[32]byte, p *ed.Point) *ed.Point {
+	return new(ed.Point).VarTimeScalarMultMonero(k, p)
 }
 
-// intMult returns k*P for the 256-bit integer k WITHOUT reducing k (Monero
-// ge_scalarmult semantics, which differ from reduction when P has a torsion
-// component).
+// intMult returns k*P for the full 256-bit integer k (not reduced), as the
+// sliding-window double scalar multiplications of crypto-ops do.
 func intMult(k *[32]byte, p *ed.Point) *ed.Point {
 	return new(ed.Point).VarTimeScalarMultInt(k, p)
 }
